@@ -38,6 +38,7 @@ type UnitResult struct {
 	Assumed  []string
 	Unknown  []string // contract names that resolved to nothing
 	Prelude  string
+	Uses     []*ProcContract // callee contracts relied on
 }
 
 func newExec(ld *Loader, db *ContractDB, pkg *Pkg, cf *ContractFile, specs *SpecLib) *Exec {
@@ -293,6 +294,9 @@ func verifyUnitRenamed(ld *Loader, db *ContractDB, specs *SpecLib, u *Unit, prop
 		res.Problems = x.problems
 		res.Assumed = sortedKeys(x.assumed)
 		res.Unknown = sortedKeys(x.unknownSeen)
+		for pc := range x.usedPC {
+			res.Uses = append(res.Uses, pc)
+		}
 		res.Prelude = x.d.Prelude()
 		for _, o := range res.Obs {
 			o.Prelude = res.Prelude
@@ -1035,6 +1039,9 @@ func lemmaProofs(specs *SpecLib, names []string, props []string) []*Oblig {
 // unit discovery
 
 func hasProp(props []string, id string) bool {
+	if id == "*" {
+		return true
+	}
 	for _, p := range props {
 		if p == id {
 			return true
